@@ -108,6 +108,7 @@ type Proxy struct {
 	failNext   int
 	blackNext  int // the next n websocket connections fall silent right after their handshake
 	swallow    int // the next n connections are accepted but their upgrade request is never answered
+	paused     [2]int32 // relays of this direction stop reading until resumed (a stall that heals)
 	faults     []*Fault
 	frames     []FrameInfo
 	protoErrs  []string
@@ -171,6 +172,17 @@ func (p *Proxy) BlackholeNext(n int) {
 	p.mu.Lock()
 	p.blackNext = n
 	p.mu.Unlock()
+}
+
+// SetPause stops (on=true) or resumes the relays in direction d of all connections: nothing is read from the
+// sender while paused, so its writes block once the socket buffers are full; unlike STALL it can be undone.
+func (p *Proxy) SetPause(d Dir, on bool) {
+	v := int32(0)
+	if on {
+		v = 1
+	}
+	atomic.StoreInt32(&p.paused[d], v)
+	core.Log.Note("px.pause", fmt.Sprintf("%s on=%v", d, on))
 }
 
 // SwallowNext: the next n connections are accepted at the TCP level, their HTTP upgrade request is read and
@@ -651,6 +663,9 @@ func (p *Proxy) frameRelay(pc *pconn, d Dir, src *bufio.Reader, dst net.Conn) {
 	for {
 		if atomic.LoadInt32(&pc.black) == 2 {
 			return
+		}
+		for atomic.LoadInt32(&p.paused[d]) == 1 && atomic.LoadInt32(&pc.dead) == 0 {
+			time.Sleep(2 * time.Millisecond)
 		}
 		var hdr [14]byte
 		if _, err := io.ReadFull(src, hdr[:2]); err != nil {
